@@ -557,6 +557,9 @@ FIXED = [
     ("fragment-cycle-behind-two-entries", "{ ...X ...Y } fragment X on Query { ...A } fragment Y on Query { ...X } fragment A on Query { ...B } fragment B on Query { ...A }", {}),
     ("fragment-cycle-behind-entry-nested-field", "{ b { ...Eb } } fragment Eb on Ob { b { ...Ab } } fragment Ab on Ob { b { ...Bb } } fragment Bb on Ob { ...Ab id }", {}),
     ("fragment-cycle-beside-acyclic", "{ ...Loop ...Alpha } fragment Alpha on Query { s } fragment Loop on Query { ...Back } fragment Back on Query { ...Loop }", {}),
+    ("rootless-mutation", "mutation { a }", {}),
+    ("rootless-subscription-fragments", "subscription { ...F } fragment F on Query { s b { id } }", {}),
+    ("rootless-mutation-beside-query", "query Q { a } mutation M { a b { id } }", {}),
     ("fragment-cycle-beside-acyclic-first", "{ ...Alpha ...Loop } fragment Loop on Query { ...Back s } fragment Back on Query { ...Loop ...Alpha } fragment Alpha on Query { s }", {}),
     ("fragment-cycle-beside-acyclic-last", "{ ...Loop ...Zed } fragment Zed on Query { s } fragment Loop on Query { ...Back } fragment Back on Query { ...Loop }", {}),
     ("fragment-self-cycle-beside-acyclic", "{ ...Self ...Alpha } fragment Alpha on Query { s } fragment Self on Query { s ...Self }", {}),
@@ -629,7 +632,10 @@ def flush_lean(ctx, batch):
         if model is None:
             ctx.fail("corr:driver-error", "driver could not answer", c.replay_data({"answer": a}), kind="correspondence")
             continue
-        if a.get("validdoc") is False:
+        # the tie is to ValidDocR (premise of validated_no_internal_error_rootless): `validate_ast` does not check that the
+        # operation's kind has a root type in the schema, so ValidDoc's root clause is NOT implied by acceptance
+        ctx.stat("ops-rooted:%s" % a.get("ops_rooted"))
+        if (a.get("validdoc_r") if "validdoc_r" in a else a.get("validdoc")) is False:
             ctx.fail("corr:accepted-but-not-ValidDoc:%s" % (a.get("validdoc_why") or "?"),
                      "validate_ast accepted a document outside the declarative ValidDoc predicate the theorems assume",
                      c.replay_data({"why": a.get("validdoc_why"), "label": label}), kind="correspondence")
